@@ -193,7 +193,7 @@ CLAIMED = {
              "the built-in checker, as a violation.",
         note="Trusted: Coq kernel; model tied to the code by differential execution only; extraction; harness. Python int() on text is "
              "modelled for ASCII ([ws][+-]digits with single underscores[ws]); non-ASCII text is outside the model; CPython's "
-             "4300-digit limit is not generated. Obligation items are objects (schema); a raising custom checker keeps the permit "
+             "4300-digit int/str conversion limit is modelled (digit strings beyond it are a conversion failure = unmet) and exercised at the boundary. Obligation items are objects (schema); a raising custom checker keeps the permit "
              "(pinned by the suite, stated in the gate theorems as the None case).",
         technique="Coq proof (induction over the obligation list; per-type characterisation) + exhaustive-in-the-small correspondence, direct and through the engine",
         design_ref="DESIGN.md 5/C07",
@@ -224,9 +224,12 @@ CLAIMED = {
              "(differential across 8 API flavours x sync/async collaborators, 50-way concurrent vs sequential, deep + identity "
              "equality); in the model it is trivial.",
         note="PARTIAL: lock programs hand-transcribed (tied per run by watchdog runs per configuration, by trace inclusion of the "
-             "implementation's observed lock events in the model, and by an AST lock-skeleton comparison); threading/asyncio/"
-             "ThreadPoolExecutor semantics assumed; implementation observed on sampled + three forced schedules only; hang = no "
-             "return in 10 s.",
+             "implementation's observed lock events in the model; an AST lock-skeleton comparison is supporting evidence only - a "
+             "difference is recorded and switches the whole theorem family on in the quick tier); threading/asyncio/"
+             "ThreadPoolExecutor semantics assumed; implementation observed on sampled + two forced schedules (polling thread held "
+             "mid-check / holding the lock) only; hang = no return in 10 s (2 x 5 s watchdog). No mutation is judged with hostile "
+             "collaborators that edit what they are handed (open finding F24 for nested values); no cross-talk also by every "
+             "single-pre-emption schedule of two evaluations on one Guard under a line-level cooperative scheduler.",
         technique="Coq finite-state exploration with proved soundness (vm_compute) + rank/termination lemma + differential, watchdog and trace-inclusion correspondence",
         design_ref="DESIGN.md 5/C14",
     ),
